@@ -42,15 +42,31 @@ Definition model_agrees (c : case) : bool :=
     end
   end.
 
+(* no references: every setting is there to be listed (a node may hold named settings and a
+   list part at once) *)
+Fixpoint static (v : value) : bool :=
+  match v with
+  | VRef _ _ | VSplice _ => false
+  | VSub d a =>
+    (fix gd (l : list (string * (string * value))) : bool :=
+       match l with [] => true | (_, (_, x)) :: r => static x && gd r end) d
+    && match a with
+       | None => true
+       | Some l => (fix ga (l : list (string * value)) : bool :=
+                      match l with [] => true | (_, x) :: r => static x && ga r end) l
+       end
+  | _ => true
+  end.
+
 Definition prop_holds (c : case) : bool :=
   match c with
   | CKeys t fl nodes _ =>
-    if pure t then
+    if static t then
       strs_eqb fl (sort_strings (leaf_paths "." "" t)) &&
       forallb (fun n => String.eqb (no_path n) (pos_str (no_pos n)) && no_parent_ok n) nodes
     else true
   | CDiff old new ok nk keep add remove =>
-    if pure old && pure new then
+    if static old && static new then
       let so := sort_strings (leaf_paths "." "" old) in
       let sn := sort_strings (leaf_paths "." "" new) in
       strs_eqb keep (diff_keep so sn) && strs_eqb add (diff_add so sn) && strs_eqb remove (diff_remove so sn)
